@@ -600,6 +600,22 @@ def fw_after_refused():
     return dict(buses=['A', 'B'], ints={'n': [48, 52]}, reals={}, handlers=handlers, forwards=[['A', 'B']], main=main, horizon=8, rejections_expected=True)
 
 
+def par_child_timeout(T='1/4', poll=False):
+    """parallel_handlers bus: a handler awaits a child that has two async handlers (each in its own task); the parent handler's
+    time-out T falls before, between or after their ends; the child is observed when the parent's await returns, at the end and
+    (poll=True) by a poller at t_p.  Whenever the child is seen complete it
+    stays as seen (a sibling handler task that survives the interruption must not find its result already closed)."""
+    handlers = [['A', 'P', 'hP', [['dispawait', 'A', 'C', 'C1'], ['ret', 'p']]],
+                ['A', 'C', 'hC0', [['sleep', 'd1'], ['ret', 'c0']]], ['A', 'C', 'hC1', [['sleep', 'd2'], ['ret', 'c1']]]]
+    main = [['root', 'A', 'P', 'P1'], ['await', 'P1'], ['obs', 'after_await', 'P1'], ['obs_all', 'after_parent'], ['idle', 'A'], ['sleep', '1'], ['obs_all', 'end']]
+    cfg = dict(buses=['A'], parallel=['A'], reals={'d1': ['0', '1/2'], 'd2': ['0', '1/2']}, handlers=handlers, main=main,
+               timeouts={'P1': T}, T=T, horizon=8)
+    if poll:
+        cfg['reals']['t_p'] = ['0', '1']
+        cfg['actors'] = {'poll': [['poll_if', 't_p', 'C1']]}
+    return cfg
+
+
 def flood_idle():
     """a burst larger than the queue onto a bus with a small history limit (rejections swallowed), then wait_until_idle()."""
     handlers = [['A', 'C', 'hC', [['ret', 'c']]]]
